@@ -385,6 +385,8 @@ def take_msb_bytes(
     ret: list[int] = []
     while len(ret) == 0 or ret[-1] & 0x80:
         b = read(1)
+        if not b:
+            raise AssertionError("EOF in the middle of an object header")
         if crc32 is not None:
             crc32 = binascii.crc32(b, crc32)
         ret.append(ord(b[:1]))
